@@ -25,7 +25,8 @@ CONSTANTS Kinds,        \* cap kinds the flow's URL may point at (subset of AllK
           Behaviours,   \* scripted addon behaviours (subset of AllBehaviours)
           NAddons,      \* number of scripted addons in front of the hooks
           Faults,       \* fault positions (subset of AllFaults)
-          MaxCalls      \* late addon calls (resume/take/preempt on a held flow) explored
+          MaxCalls,     \* late addon calls (resume/take/preempt on a held flow) explored
+          CloseSet      \* sessions whose closing (viewer logout + garbage collection) is explored
 
 AllKinds == {"none", "login", "normal", "seed", "eq", "upload", "temp", "asset", "wrapper", "proxyonly"}
 AllBehaviours == {"ignore", "take", "takeResume", "resume", "inject", "rewrite", "nostream",
@@ -47,10 +48,11 @@ VARIABLES tgt,     \* [k, s, r]: what the flow's URL denotes (fixed per behaviou
           handled, \* ghost: events whose handling has ended
           fixed,   \* ghost: flags fixed by the proxy at request interception; a preempt was applied
           out,     \* observation of the last step (excluded from the state VIEW)
-          calls
+          calls,
+          closed   \* sessions that were closed (SessionManager.close_session) and whose objects are gone
 
-vars == <<tgt, px, fromQ, toQ, mf, hb, ap, handled, fixed, out, calls>>
-View == <<tgt, px, fromQ, toQ, mf, hb, ap, handled, fixed, calls>>
+vars == <<tgt, px, fromQ, toQ, mf, hb, ap, handled, fixed, out, calls, closed>>
+View == <<tgt, px, fromQ, toQ, mf, hb, ap, handled, fixed, calls, closed>>
 
 Events == {"request", "response"}
 NoCap == [k |-> "unset", s |-> 0, r |-> 0]        \* cap_data is None
@@ -65,8 +67,16 @@ AssetKind(k) == k \in {"asset", "wrapper"}        \* is_asset_server_cap_name
 Targets == {t \in [k : Kinds, s : 0..2, r : 0..2] :
                IF Owned(t.k) THEN 10 * t.s + t.r \in Pairs ELSE t.s = 0 /\ t.r = 0}
 
-\* session_manager.resolve_cap(url)
-Resolve(t) == IF t.k \in {"none", "login"} THEN EmptyCap ELSE t
+AllSessions == {1, 2}
+\* session_manager.resolve_cap(url): the caps of a closed session no longer resolve (the shared
+\* asset URL resolves through any session that is left)
+Resolve(t) == IF t.k \in {"none", "login"} THEN EmptyCap
+              ELSE IF t.k = "asset" THEN (IF closed = AllSessions THEN EmptyCap ELSE t)
+              ELSE IF t.s \in closed THEN EmptyCap ELSE t
+\* what is left of an attribution once the owning session is gone: the cap's name and type
+\* stay, session and region read as none (dead weak references / identifiers that match nothing)
+Gone(c) == [c EXCEPT !.s = 0, !.r = 0]
+Deser(m) == IF m.cap.s \in closed THEN [m EXCEPT !.cap = Gone(@)] ELSE m
 
 (*************************** scripted addon hooks **************************)
 \* st = [meta, taken, resumed, puts, exc, stop]
@@ -131,8 +141,9 @@ Bridge(cfg, st) ==
     IF st.meta.cap.k # "bridge" THEN st
     ELSE CASE cfg.owner = "absent" -> [st EXCEPT !.stop = TRUE]
            [] cfg.owner = "bad" -> [st EXCEPT !.exc = TRUE]
-           [] cfg.owner = "s1" -> [st EXCEPT !.meta.cap = [k |-> "bridge", s |-> 1, r |-> 1]]
-           [] cfg.owner = "s2" -> [st EXCEPT !.meta.cap = [k |-> "bridge", s |-> 2, r |-> 1]]
+           \* (the agent of a closed session matches nobody: the flow goes on unattributed)
+           [] cfg.owner = "s1" -> IF 1 \in closed THEN st ELSE [st EXCEPT !.meta.cap = [k |-> "bridge", s |-> 1, r |-> 1]]
+           [] cfg.owner = "s2" -> IF 2 \in closed THEN st ELSE [st EXCEPT !.meta.cap = [k |-> "bridge", s |-> 2, r |-> 1]]
 
 RunResponse(cfg, m0) ==
     LET s0 == Start(m0)   \* a raising logger is swallowed here
@@ -176,7 +187,7 @@ Init == /\ tgt \in Targets
         /\ hb = [e \in Events |-> 0] /\ ap = [e \in Events |-> 0] /\ handled = {}
         /\ fixed = [browser |-> FALSE, rinj |-> FALSE, preempted |-> FALSE]
         /\ out = [n |-> "init", exc |-> FALSE, res |-> "ok"]
-        /\ calls = 0
+        /\ calls = 0 /\ closed = {}
 
 \* IPCInterceptionAddon.request: flags from the headers, intercept, queue the state
 InterceptRequest(browser, hdr) ==
@@ -186,7 +197,7 @@ InterceptRequest(browser, hdr) ==
          /\ fromQ' = Append(fromQ, [ev |-> "request", meta |-> m])
          /\ fixed' = [fixed EXCEPT !.browser = browser, !.rinj = m.rinj]
     /\ out' = [n |-> "InterceptRequest", exc |-> FALSE, res |-> "ok"]
-    /\ UNCHANGED <<tgt, toQ, mf, hb, ap, handled, calls>>
+    /\ UNCHANGED <<tgt, toQ, mf, hb, ap, handled, calls, closed>>
 
 \* SLMITMAddon.responseheaders + response: the server's answer (unless one was injected),
 \* bridge replies get a fake cap, intercept, queue.  Whether an injected asset response is
@@ -201,21 +212,22 @@ InterceptResponse(bridge) ==
          /\ px' = [phase |-> "resp", icpt |-> TRUE, meta |-> m]
          /\ fromQ' = Append(fromQ, [ev |-> "response", meta |-> m])
     /\ out' = [n |-> "InterceptResponse", exc |-> FALSE, res |-> "ok"]
-    /\ UNCHANGED <<tgt, toQ, mf, hb, ap, handled, fixed, calls>>
+    /\ UNCHANGED <<tgt, toQ, mf, hb, ap, handled, fixed, calls, closed>>
 
 \* MITMProxyEventManager.pump_proxy_event, one queued event
 HandleBody(cfg) ==
     /\ fromQ # <<>>
     /\ LET it == Head(fromQ)
            ev == it.ev
-       IN /\ LET st == Finally(IF ev = "request" THEN RunRequest(cfg, it.meta) ELSE RunResponse(cfg, it.meta)) IN
+           m0 == Deser(it.meta)     \* from_state: identifiers of a closed session match nothing
+       IN /\ LET st == Finally(IF ev = "request" THEN RunRequest(cfg, m0) ELSE RunResponse(cfg, m0)) IN
                /\ mf' = [ev |-> ev, meta |-> st.meta, taken |-> st.taken, resumed |-> st.resumed]
                /\ toQ' = toQ \o [i \in 1..Len(st.puts) |-> [kind |-> "callback", ev |-> ev, meta |-> st.puts[i]]]
                /\ hb' = [hb EXCEPT ![ev] = @ + Len(st.puts)]
                /\ out' = [n |-> "Handle", exc |-> st.exc, res |-> "ok"]
           /\ handled' = handled \cup {ev}
           /\ fromQ' = Tail(fromQ)
-    /\ UNCHANGED <<tgt, px, ap, fixed, calls>>
+    /\ UNCHANGED <<tgt, px, ap, fixed, calls, closed>>
 
 Handle(cfg) == fromQ # <<>> /\ Relevant(Head(fromQ).ev, cfg, Head(fromQ).meta) /\ HandleBody(cfg)
 
@@ -240,7 +252,7 @@ AddonCall(op, mod) ==
                     [] op = "preempt" ->
                          /\ toQ' = Append(toQ, [kind |-> "preempt", ev |-> mf.ev, meta |-> mf.meta])
                          /\ UNCHANGED <<mf, hb>>
-    /\ UNCHANGED <<tgt, px, fromQ, ap, handled, fixed>>
+    /\ UNCHANGED <<tgt, px, fromQ, ap, handled, fixed, closed>>
 
 \* IPCInterceptionAddon._pump_callbacks, one item.  bad: the state dict is unusable
 \* (set_state raises) -- the original flow must be resumed all the same.
@@ -258,13 +270,28 @@ Apply(bad) ==
     /\ fixed' = [fixed EXCEPT !.preempted = @ \/ Head(toQ).kind = "preempt"]
     /\ toQ' = Tail(toQ)
     /\ out' = [n |-> "Apply", exc |-> FALSE, res |-> IF bad THEN "bad" ELSE "ok"]
-    /\ UNCHANGED <<tgt, fromQ, mf, hb, handled, calls>>
+    /\ UNCHANGED <<tgt, fromQ, mf, hb, handled, calls, closed>>
+
+\* The viewer logs out: SessionManager.close_session, and the session's and its regions' objects
+\* become unreferenced and are collected.  Queue items and the proxy-side flow carry identifiers
+\* (strings), they do not change; the main-process flow object holds weak references, which now
+\* read as none.  A flow an addon holds must still go back exactly once when released.
+CloseBody(s) ==
+    /\ s \notin closed
+    /\ closed' = closed \cup {s}
+    /\ mf' = IF mf.meta.cap.s = s THEN [mf EXCEPT !.meta.cap = Gone(@)] ELSE mf
+    /\ out' = [n |-> "SessionCloses", exc |-> FALSE, res |-> "ok"]
+    /\ UNCHANGED <<tgt, px, fromQ, toQ, hb, ap, handled, fixed, calls>>
+\* explored: one closing per behaviour, any time after the first event was handled while nothing
+\* waits for the main process (held by an addon, handed back, between request and response)
+SessionCloses(s) == s \in CloseSet /\ closed = {} /\ mf.ev # "none" /\ fromQ = <<>> /\ CloseBody(s)
 
 Next == \/ \E b, h \in BOOLEAN : InterceptRequest(b, h)
         \/ \E b \in BOOLEAN : InterceptResponse(b)
         \/ \E cfg \in Cfgs : Handle(cfg)
         \/ \E op \in {"take", "resume", "preempt"}, mod \in BOOLEAN : AddonCall(op, mod)
         \/ \E bad \in BadApply : Apply(bad)
+        \/ \E s \in CloseSet : SessionCloses(s)
 
 Spec == Init /\ [][Next]_vars
 
@@ -290,16 +317,23 @@ HeldUntilApplied == /\ (px.phase = "req" /\ ap["request"] = 0) => px.icpt
 \* every copy of the flow state, wherever it currently lives
 Copies == {px.meta, mf.meta} \cup {fromQ[i].meta : i \in 1..Len(fromQ)} \cup {toQ[i].meta : i \in 1..Len(toQ)}
 Expected(c) == \/ c.k \in {"unset", "empty"}
-               \/ c = Resolve(tgt)
+               \/ c = tgt /\ tgt.k \notin {"none", "login"}
+               \/ c = Gone(tgt) /\ tgt.s \in closed
                \/ c.k = "login" /\ tgt.k = "login" /\ c.s = 0
                \/ c.k = "bridge" /\ tgt.k \in {"none", "login"}
 \* routing metadata never changes behind the back of the handlers
 RoutingStable == \A m \in Copies : Expected(m.cap)
 FlagsStable == \A m \in Copies : m = Meta0 \/ (m.browser = fixed.browser /\ m.rinj = fixed.rinj)
 \* after resolution the attribution is never lost again on its way through the processes
+\* (a hand-back made after the owning session went away names the cap without session and region)
 AttributionKept == ("request" \in handled /\ Owned(tgt.k) /\ px.phase # "dead")
-                     => \A i \in 1..Len(toQ) : toQ[i].meta.cap = tgt
-AppliedAttribution == (ap["request"] = 1 /\ Owned(tgt.k) /\ px.phase \in {"mid", "resp", "end"}) => px.meta.cap = tgt
+                     => \A i \in 1..Len(toQ) : toQ[i].meta.cap = tgt \/ (tgt.s \in closed /\ toQ[i].meta.cap = Gone(tgt))
+AppliedAttribution == (ap["request"] = 1 /\ Owned(tgt.k) /\ px.phase \in {"mid", "resp", "end"})
+                        => px.meta.cap = tgt \/ (tgt.s \in closed /\ px.meta.cap = Gone(tgt))
+\* the main-process object never shows a session that is gone
+GoneReadsNone == mf.meta.cap.s \notin closed
+\* closing a session neither hands a flow back nor prevents it: the other invariants are stated
+\* over hb/ap/mf only and hold across SessionCloses (checked by TLC like any other action)
 \* a hand-back says "response injected" exactly when it carries an injected response
 InjectedSurvives == \A i \in 1..Len(toQ) : toQ[i].meta.pinj <=> toQ[i].meta.resp \in {"addon", "handler"}
 (*************************** observation (binding B1) **********************)
